@@ -76,6 +76,7 @@ var interpPkgPrefixes = []string{
 	"github.com/secure-systems-lab/go-securesystemslib/signerverifier",
 	"github.com/secure-systems-lab/go-securesystemslib/cjson",
 	"errors",
+	"bytes",
 	"io",
 	"path",
 	"sort",
